@@ -457,9 +457,7 @@ func (it *Interp) symDuration() *Term {
 	if k, ok := it.known[fr]; ok {
 		fr = k
 	}
-	if !fr.IsConst() {
-		fr = st.URem(fr, st.Const(32, 1000000000))
-	}
+	fr = st.URem(fr, st.Const(32, 1000000000)) // (also in concrete mode: the harness reduces durfrac the same way)
 	d = st.Add(d, st.Zext(fr, 64))
 	if it.Params["durneg"] == 1 {
 		d = st.Neg(d)
